@@ -5,6 +5,7 @@ import rvasmgen
 import rvgen
 
 PROP = "C05"
+CONSTS = ['asm', 'mem']          # constant tables of the models this property depends on
 RULE = ("data segments rendered from abstract declaration lists (byte/half/word with negative and out-of-range literals, "
         "strings, .zero, any element counts) in either segment order, with la / load / store by name[i] at first, last and random "
         "indices; li constants: every boundary of the low 12 bits crossed with boundary high parts plus random 32-bit and wider "
